@@ -563,4 +563,6 @@ func genFormat(w *lib.Writer, r *lib.Rand, tier string) {
 		}
 		runFormat(w, fmtIn{Fn: "format", F: h(sb.String()), Args: args})
 	}
+	genFormatBoundaries(w, r)
+	genFormatSweeps(w, r.Fork())
 }
